@@ -52,8 +52,20 @@ class Ctx(S.Context):
         self.asts = [dict(c) for c in self.BASE] + list(extra)
         self.ns = mod.__dict__
         exec(G.IMPORTS, self.ns)
+        # default factories: `default=_fact(key)` is a callable that returns, whenever typedpy calls it, the value the
+        # harness currently holds under `key` (fixed per chain by a ["factory", key, value] pseudo-entry; while the
+        # class statement runs it is the declared initial value, which the definition-time check samples)
+        self.ns["_FACT"] = {}
+        exec("def _fact(key):\n    return lambda: _FACT[key]\n", self.ns)
+        self.fact_now = {}          # key -> reified value currently returned
         for c in self.asts:
-            exec(S.class_src(c), self.ns)
+            for fd in c["fields"]:
+                if fd.get("factory") is not None:
+                    self.fact_now[fd["factory"]] = fd["default"]
+                    self.ns["_FACT"][fd["factory"]] = G.unreify(fd["default"])
+        self.step_overrides = {}    # id(step tuple) -> [(class, field, reified value)] in force when the step ran
+        for c in self.asts:
+            exec(L.class_src(c), self.ns)
         self.classes = {c["name"]: self.ns[c["name"]] for c in self.asts}
         self.instances = {
             "Inner": [("struct", "Inner", [("a", ("int", 1))]),
@@ -65,6 +77,25 @@ class Ctx(S.Context):
 
     def close(self):
         sys.modules.pop(self.modname, None)
+
+    def set_factory(self, key, value):
+        self.fact_now[key] = value
+        self.ns["_FACT"][key] = G.unreify(value, self.classes)
+
+    def reset_factories(self):
+        for c in self.asts:
+            for fd in c["fields"]:
+                if fd.get("factory") is not None:
+                    self.set_factory(fd["factory"], fd["default"])
+
+    def overrides_now(self):
+        """[(class, field, value)] for every class whose (own or inherited) field has a factory default."""
+        out = []
+        for c in self.asts:
+            for fd in self.all_fields(c["name"]):
+                if fd.get("factory") is not None and repr(self.fact_now[fd["factory"]]) != repr(fd["default"]):
+                    out.append((c["name"], fd["name"], self.fact_now[fd["factory"]]))
+        return out
 
     def resolved(self, name):
         """As structgen.Context.resolved, but `_additional_properties` is read the way
@@ -87,18 +118,28 @@ SCALAR_T = ("num", "str", "bool", "enumlit")
 
 
 def add_defaults(rnd, c, ctx_instances):
+    """Defaults on scalar fields: constants (falsy ones and ones that need conversion included: 0, '', False, an int
+    for a Float, 'True' for a Boolean, a member NAME for an Enum), now and then a falsy constant that may violate
+    the declaration (typedpy examines a default at definition time only `if default:`), and default FACTORIES
+    (`default=<callable>`, called for every new instance; the value it returns is fixed per chain)."""
     for fd in c["fields"]:
         f = fd["field"]
-        if f["t"] in SCALAR_T and rnd.random() < 0.3:
+        if f["t"] in SCALAR_T and rnd.random() < 0.38:
             v = G.gen_valid(rnd, f, ctx_instances)
             if f["t"] == "num" and not G.num_ok(f, v):
                 continue
-            if v[0] in ("none",) or v == ("str", "") or v == ("int", 0) or v == ("bool", False) or \
-                    (v[0] == "flt" and v[1] == 0):
-                continue      # falsy defaults are a different story (F12)
-            if v[0] in ("tuple", "other"):
+            r = rnd.random()
+            if r < 0.12:
+                v = rnd.choice([("int", 0), ("flt", 0, 0), ("str", ""), ("bool", False)])    # falsy, valid or not
+            if v[0] in ("none", "tuple", "other"):
                 continue
             fd["default"] = v
+            if r > 0.7:
+                fd["factory"] = "%s.%s" % (c["name"], fd["name"])
+
+
+def factory_fields(env):
+    return [(fd["factory"], fd) for c in env for fd in c["fields"] if fd.get("factory") is not None]
 
 
 def featured(rnd):
@@ -287,6 +328,14 @@ def gen_chain(rnd, ctx, env):
     by = {x["name"]: x for x in env}
     start = rnd.choice([a, a, b, c])
     chain = []
+    # what each default factory of the environment returns during this chain: a conforming value, or one on / just
+    # outside the boundary of the declaration (the factory was sampled ONCE, with a conforming value, at definition)
+    for key, fd in factory_fields(env):
+        r0 = rnd.random()
+        if r0 < 0.35:
+            chain.append(["factory", key, G.gen_valid(rnd, fd["field"], ctx.instances)])
+        elif r0 < 0.7:
+            chain.append(["factory", key, no_objects(rnd.choice(L.near(fd["field"])))])
     mode = rnd.choice(MODES)
     fields = ctx.all_fields(start["name"])
     kw = gen_kw(rnd, start, ctx, fields, mode)
@@ -440,7 +489,11 @@ def run_chain(ctx, chain):
     steps = []
     cur = None
     cur_r = ("none",)
+    ctx.reset_factories()
     for en in chain:
+        if en[0] == "factory":
+            ctx.set_factory(en[1], en[2])      # from now on the default factory `key` returns this value
+            continue
         flags = set()
         try:
             new = run_step(ctx, cur, en)
@@ -459,6 +512,9 @@ def run_chain(ctx, chain):
             # pickle round trip is top-level only: spec only.
             flags.add("pickle-nested-extras")
         steps.append((en, cur_r, out, flags))
+        ov = ctx.overrides_now()
+        if ov:
+            ctx.step_overrides[id(steps[-1])] = ov
         if out[0] != "ok" or out[1][0] != "struct":
             break
         cur, cur_r = new, out[1]
@@ -543,9 +599,13 @@ def emit_case(ctx, step):
     term, cmp_ = emit_entry(en, cur_r)
     cmp_ = cmp_ and not flags
     tbl = G.match_table(all_env_fields(ctx), entry_values(en) + [cur_r] + ([out[1]] if out[0] == "ok" else [])
+                        + [v for _, _, v in ctx.step_overrides.get(id(step), [])]
                         + [fd["default"] for c in ctx.asts for fd in c["fields"] if fd.get("default") is not None])
-    return "{| sc_tbl := %s; sc_env := env0; sc_cur := %s; sc_entry := %s; sc_cmp := %s; sc_obs := %s |}" % (
-        G.emit_table(tbl), E.pval(cur_r), term, E.blit(cmp_), E.outcome(out))
+    ov = ctx.step_overrides.get(id(step))
+    envt = "env0" if not ov else "(override_defaults env0 %s)" % E.lst(
+        ["(%s, %s, %s)" % (E.pstr(c), E.pstr(f), E.pval(v)) for c, f, v in ov])
+    return "{| sc_tbl := %s; sc_env := %s; sc_cur := %s; sc_entry := %s; sc_cmp := %s; sc_obs := %s |}" % (
+        G.emit_table(tbl), envt, E.pval(cur_r), term, E.blit(cmp_), E.outcome(out))
 
 
 def evaluate(items, tag="c01", per=150, n_small=0, per_small=600):
@@ -711,6 +771,47 @@ def copied_pair(step):
     return None
 
 
+def default_origin(ctx, step, name):
+    """The non-conforming attribute `name` was NOT supplied by the caller of the entry point and its declaration has
+    a default: which kind ("factory" | "falsy-constant" | "constant"), else None.  Only used to NAME a violation: a
+    falsy constant default is never examined at class definition (`if default:` in Field.__init__, a listed
+    definition-level finding), a factory's later values cannot be - different root causes, different keys."""
+    en, cur_r, out, _fl = step
+    try:
+        fd = next((f for f in ctx.all_fields(out[1][1]) if f["name"] == name), None)
+    except KeyError:
+        return None
+    if fd is None or fd.get("default") is None:
+        return None
+    k = en[0]
+    cur_names = set(n for n, _ in cur_r[2]) if cur_r[0] == "struct" else set()
+    given = lambda kw: set(n for n, v in kw if v != ("none",))
+    if k in ("ctor", "deser", "deser_ser"):
+        supplied = given(en[2])
+    elif k in ("from_mapping", "from_object"):
+        supplied = given(en[2]) | given(en[3])
+    elif k == "clone":
+        supplied = given(en[1]) | cur_names
+    elif k == "from_other":
+        supplied = given(en[2]) | cur_names
+    elif k == "cast":
+        supplied = cur_names
+    elif k == "wrap":
+        supplied = given(en[3]) | {en[2]}
+    elif k == "ctor_attr":
+        supplied = {en[2]}
+    else:
+        return None
+    if name in supplied:
+        return None
+    if fd.get("factory") is not None:
+        return "factory"
+    try:
+        return "constant" if G.unreify(fd["default"], ctx.classes) else "falsy-constant"
+    except Exception:  # noqa
+        return "constant"
+
+
 def violation_key(ctx, step, unstable, bad=None):
     en, cur_r, out, _flags = step
     inst = out[1]
@@ -741,6 +842,25 @@ def violation_key(ctx, step, unstable, bad=None):
         if acc:
             return "C01/normalised-collision/" + sorted(set(a.split(">")[-1] for a in acc))[0]
         return "C01/normalised-collision/unlocated/" + kind
+    if kind == "deser" and inst[0] == "struct" and bad:
+        # the listed normalisation-collision defect reached through the deserializer's own conversion of the
+        # document (a JSON list for a Deque/Set/Tuple field: the model's [stable] clause looks at the constructor's
+        # argument, which the document is not): the collection-level constraint holds of the SUPPLIED elements
+        # (as Python compares them) and fails of the stored, converted ones
+        try:
+            decl0 = {fd["name"]: fd["field"] for fd in ctx.all_fields(inst[1])}
+            acc = []
+            for i in bad:
+                if i < len(inst[2]) and inst[2][i][0] in decl0:
+                    n0, stored = inst[2][i]
+                    supplied = dict((k0, v0) for k0, v0 in en[2]).get(n0)
+                    got = find_collisions(decl0[n0], stored, [])
+                    if got and supplied is not None and not find_collisions(decl0[n0], supplied, []):
+                        acc += got
+            if acc and len(acc) >= len([i for i in bad if i < len(inst[2])]):
+                return "C01/normalised-collision/" + sorted(set(a.split(">")[-1] for a in acc))[0]
+        except KeyError:
+            pass
     extra = ""
     where = ""
     if inst[0] == "struct":
@@ -755,17 +875,30 @@ def violation_key(ctx, step, unstable, bad=None):
                 # which declaration the stored value does not conform to; none located: _required, the
                 # __validate__ hook, or an instance nested inside
                 where = "/" + (shapes[0] if shapes else ("undeclared" if und else "required-hook-or-nested"))
+                origins = sorted(set(o for o in (default_origin(ctx, step, inst[2][i][0]) for i in bad
+                                                 if i < len(inst[2]) and inst[2][i][0] in decl) if o))
+                if origins:
+                    where += "/omitted-default:" + origins[0]
         except KeyError:
             pass
     return "C01/invalid-instance/%s%s%s" % (kind, where, extra)
 
 
 def python_src(ctx, chain, env=None):
-    src = ctx.source() if env is None else "".join(S.class_src(c) + "\n" for c in [dict(c) for c in ctx.BASE] + list(env))
+    src = ctx.source() if env is None else "".join(L.class_src(c) + "\n" for c in [dict(c) for c in ctx.BASE] + list(env))
+    fact0 = {fd["factory"]: fd["default"] for c in (ctx.asts if env is None else env) for fd in c["fields"]
+             if fd.get("factory") is not None}
+    pre = ""
+    if fact0:
+        pre = ("_FACT = {%s}\ndef _fact(key):\n    return lambda: _FACT[key]     # a default FACTORY: called for every new instance\n"
+               % ", ".join("%r: %s" % (k, G.py_src(v)) for k, v in sorted(fact0.items())))
     lines = [G.IMPORTS, "import copy, pickle\nfrom typedpy import Deserializer, Serializer, deserialize_structure\n",
-             src, "x = None"]
+             pre + src, "x = None"]
     for en in chain:
         k = en[0]
+        if k == "factory":
+            lines.append("_FACT[%r] = %s     # what the default factory returns from now on" % (en[1], G.py_src(en[2])))
+            continue
         kws = lambda kw: ", ".join("%s=%s" % (n, G.py_src(v)) for n, v in kw)
         d = lambda kw: "{" + ", ".join("%r: %s" % (n, G.py_src(v)) for n, v in kw) + "}"
         if k == "ctor":
@@ -881,10 +1014,14 @@ def evaluate_deser(cases, tag="c01deser", per=300):
             en, cur_r, out, _fl = st
             doc = ("dict", [(("str", k), v) for k, v in en[2]])
             tbl = G.match_table(all_env_fields(ctx), [doc] + ([out[1]] if out[0] == "ok" else [])
+                                + [v for _, _, v in ctx.step_overrides.get(id(st), [])]
                                 + [fd["default"] for c in ctx.asts for fd in c["fields"] if fd.get("default") is not None])
-            recs.append("{| dc_tbl := %s; dc_env := env0; dc_ens := ens0; dc_flags := %s; dc_ku := %s; dc_cls := %s; "
+            ov = ctx.step_overrides.get(id(st))
+            envt = "env0" if not ov else "(override_defaults env0 %s)" % E.lst(
+                ["(%s, %s, %s)" % (E.pstr(c), E.pstr(f), E.pval(v)) for c, f, v in ov])
+            recs.append("{| dc_tbl := %s; dc_env := %s; dc_ens := ens0; dc_flags := %s; dc_ku := %s; dc_cls := %s; "
                         "dc_doc := %s; dc_obs := %s |}" % (
-                            G.emit_table(tbl), flags, deser_ku(en[3]),
+                            G.emit_table(tbl), envt, flags, deser_ku(en[3]),
                             E.pstr(en[1]), E.pval(doc), E.outcome(out)))
         body += "Definition dcases : list dcase := %s.\n" % E.lst(["\n " + r for r in recs])
         body += "Eval vm_compute in (map dflags_of dcases).\n"
@@ -976,13 +1113,14 @@ def run(rep, tier):
 
     def add_chain(ctx, env, chain, stream, shape_key):
         steps = run_chain(ctx, chain)
+        real_pos = [i for i, en_ in enumerate(chain) if en_[0] != "factory"]
         rep.stat(stream, "executed-length:%d" % len(steps))
         for si, st in enumerate(steps):
             en, cur_r, out, flags = st
             for fl in flags:
                 rep.stat(stream, "not-compared:" + fl)
             items.append((ctx, st))
-            where.append((env, chain, si))
+            where.append((env, chain[:real_pos[si] + 1], si))      # the chain up to and including this step
             okind = "ok" if out[0] == "ok" else out[1]
             rep.count(stream, 1, (en[0], okind, shape_key, len(en[1]) if en[0] == "clone" else 0))
             rep.stat(stream, "entry:" + en[0])
@@ -1017,6 +1155,24 @@ def run(rep, tier):
             n_lat += 1
     rep.cov["streams"].setdefault("lattice", {"evaluations": 0})
     rep.cov["streams"]["lattice"].update({"chains": n_lat, "declarations": lat_decl})
+    n_lat_only = len(items)
+    # ---- stream 1b: OMITTED fields with defaults (constants incl. falsy / conversion-needing ones; default
+    #      factories made to return every near-miss value) through every entry point that can leave a field out
+    n_def = 0
+    for pre, asts, chains in L.defaults_lattice(tier, core.seed()):
+        try:
+            ctx = Ctx(asts)
+        except Exception as ex:  # noqa
+            rep.stat("defaults", "group-rejected:" + type(ex).__name__)
+            continue
+        ctxs.append(ctx)
+        for tag, leaf_shape, chain in chains:
+            add_chain(ctx, minimal_env(asts, chain), chain, "defaults", (tag, leaf_shape))
+            rep.stat("defaults", "kind:" + tag.split(":")[0])
+            n_def += 1
+    rep.cov["streams"].setdefault("defaults", {"evaluations": 0})
+    rep.cov["streams"]["defaults"].update({"chains": n_def})
+    n_defaults_items = len(items) - n_lat_only
     n_lattice_items = len(items)
     _t["lattice_run_s"] = round(_time.time() - _t["start"], 1)
 
@@ -1072,12 +1228,13 @@ def run(rep, tier):
         rep.cov["timing"] = _t
         if r is not None:
             s = rep.cov["streams"]["steps"]
-            lat_idx = set(range(n_lattice_items))
-            rep.cov["streams"]["lattice"].update({
-                "accepted": sum(1 for _, st in items[:n_lattice_items] if st[2][0] == "ok"),
-                "in_statement_domain": len(set(r["sin_dom"]) & lat_idx),
-                "in_theorem_domain": len(set(r["sin_thm_dom"]) & lat_idx),
-                "model_declines": len(set(r["sunmodelled"]) & lat_idx)})
+            for sname, lo, hi in (("lattice", 0, n_lat_only), ("defaults", n_lat_only, n_lattice_items)):
+                idx = set(range(lo, hi))
+                rep.cov["streams"][sname].update({
+                    "accepted": sum(1 for _, st in items[lo:hi] if st[2][0] == "ok"),
+                    "in_statement_domain": len(set(r["sin_dom"]) & idx),
+                    "in_theorem_domain": len(set(r["sin_thm_dom"]) & idx),
+                    "model_declines": len(set(r["sunmodelled"]) & idx)})
             acc = sum(1 for _, st in items[n_lattice_items:] if st[2][0] == "ok")
             rnd_n = lambda name: len([i for i in r[name] if i >= n_lattice_items])
             s.update({"accepted": acc, "in_statement_domain": rnd_n("sin_dom"),
@@ -1097,9 +1254,9 @@ def run(rep, tier):
                         env, chain, si = where[i]
                         rep.finding("C01/invalid-instance/%s/attrs:%s" % (st[0][0], ",".join(flags)),
                                     "entry point %s hands out an instance that still carries %s" % (st[0][0], flags),
-                                    {"env": env, "chain": chain[:si + 1], "failing_step": si, "observed": st[2],
-                                     "python": python_src(ctx, chain[:si + 1], env)})
-            loc_idx = [i for i in r["sviolation"] if i not in unstable][:1000]
+                                    {"env": env, "chain": chain, "failing_step": si, "observed": st[2],
+                                     "python": python_src(ctx, chain, env)})
+            loc_idx = [i for i in r["sviolation"] if i not in unstable][:4000]
             located = dict(zip(loc_idx, localise([items[i] for i in loc_idx])))
             for i in r["sviolation"]:
                 ctx, st = items[i]
@@ -1107,8 +1264,8 @@ def run(rep, tier):
                 key = violation_key(ctx, st, i in unstable, located.get(i))
                 rep.finding(key, "entry point %s yields an instance its own declaration rejects (step %d of %s)" % (
                     st[0][0], si, [e[0] for e in chain]),
-                    {"env": env, "chain": chain[:si + 1], "failing_step": si, "observed": st[2],
-                     "python": python_src(ctx, chain[:si + 1], env)})
+                    {"env": env, "chain": chain, "failing_step": si, "observed": st[2],
+                     "python": python_src(ctx, chain, env)})
             rep.obligation("spec-on-observed:inst_ok+deep_valid",
                            not any(not v["no_input"] for v in rep.violations),
                            "%d accepted in-domain steps, %d spec failures" % (
@@ -1128,8 +1285,8 @@ def run(rep, tier):
                 rep.broken("correspondence:run_entry",
                            "model (Struct/Entry.v, Struct/Instance.v) and typedpy differ on %d generated steps "
                            "(entry kinds %s); the spec holds on every explored input" % (len(r["smismatch"]), kinds),
-                           {"env": env, "chain": chain[:si + 1], "failing_step": si, "observed": st[2],
-                            "python": python_src(ctx, chain[:si + 1], env)})
+                           {"env": env, "chain": chain, "failing_step": si, "observed": st[2],
+                            "python": python_src(ctx, chain, env)})
     # ---- deserialization against the model of its REAL pre-processing (the model C01_deser_* are about)
     if model_ok and r is not None:
         dc = deser_doc_cases(items)
@@ -1155,8 +1312,8 @@ def run(rep, tier):
                 rep.broken("correspondence:deserialize",
                            "model of deserialization (Ser/Deserialize.v) and typedpy differ on %d documents; the spec holds "
                            "on every explored input" % len(mism),
-                           {"env": env, "chain": chain[:si + 1], "failing_step": si, "observed": st[2],
-                            "python": python_src(ctx, chain[:si + 1], env)})
+                           {"env": env, "chain": chain, "failing_step": si, "observed": st[2],
+                            "python": python_src(ctx, chain, env)})
     for ctx in ctxs:
         ctx.close()
     if unsafe_sites and not any(not v["no_input"] for v in rep.violations):
